@@ -45,14 +45,15 @@ start = s.index("## 13. Seeded changes and which checks catch them")
 end = s.index("## Appendix A")
 intro = '''## 13. Seeded changes and which checks catch them
 
-Four rounds of independent sub-agents (one per claimed property and round)
+Five rounds of independent sub-agents (one per claimed property and round)
 were given only the text of one property and a private scratch worktree, and
 asked for two changes each that break the property, keep the pinned suite green
-and need something specific to manifest; rounds two to four were steered
+and need something specific to manifest; rounds two to five were steered
 towards state left by earlier calls, failures at interior points, unspecified
 behaviour of dependencies and cooperating edits, and were told which ideas were
 already taken (variants A/B = round 1, C/D = round 2, E/F = round 3,
-G/H = round 4). Every change was confirmed by
+G/H = round 4, I/J = round 5; round 5 was pointed at shared infrastructure:
+`align.py`, `dispatch.py`, `clean.py`, `baseclass.py`, `utils/`). Every change was confirmed by
 `tools/confirm_seeds.sh` in a scratch worktree (patch applies; no newly
 failing test; the agent's demo fails with the change and passes without) before
 it was filed under `/verif/seeded/<id>/` (`patch.diff`, `demo.py`, `notes.md`
@@ -123,6 +124,16 @@ threshold); C17-G/H to the `mode` keyword of `choose`; C15-G/H (and three side
 remarks about the unchanged tree, all reproduced and repaired, §10) to
 construction from dictionaries and without names, `isfinite`, `tonumpy` of
 constants and powers by a polynomial in the twin programs.
+Round five (10 of 22 missed at first): C14-I/J to reused manager objects,
+recursive decorated functions and warnings-as-errors; C18-I/J to allocation
+failures at numpy's array-creating functions and to narrow key dtypes / one long
+axis; C13-I/J to the device-full fault with short writes on raw streams and to
+comment lines with `skiprows`; C17-I/J to bool and other coefficient dtypes and
+to counting an argument that can no longer be read as changed; C07-I to
+compare-again after an in-place update; C11-I/J to the method spelling, keyword
+primers, transposed views and `order=`; C15-J to single-string names; C16-J to
+exponents beyond one byte; C20-J to a partial-evaluation stage with merging
+terms.
 
 '''
 s = s[:start] + intro + table + "\n\n---------------------------------------------------------------------------\n\n" + s[end:]
